@@ -47,7 +47,7 @@ impl Check for C13 {
         scan_case_strategy(ScanParams { multi_occ: true, ..ScanParams::default() }, 6)
     }
     fn cases(&self, tier: Tier) -> u32 {
-        tier.pick(3000, 80000)
+        tier.pick(60000, 1000000)
     }
     fn run(&self, c: &ScanCase, st: &mut Stats) -> Verdict {
         let (l, text) = match load_case(c) {
